@@ -27,4 +27,5 @@ func verifDerived(sk *SessionKey, streamID uint64) {
 	if f != nil {
 		f(sk, streamID)
 	}
+	verifRecordDerived(sk)
 }
